@@ -52,6 +52,24 @@ def parameter_provenance(ctx):
             continue
         r.fail("%s::%s" % (rel.split("/")[-1], qn), rel, top, min(lines), "GLOBAL_PARAMETERS read in %s" % top,
                "%s reads GLOBAL_PARAMETERS (%d time(s), lines %s) instead of the parameter object given at construction: the result depends on later changes of the global parameters" % (qn, len(lines), sorted(lines)[:6]))
+    # the sanctioned resolution must hand out a snapshot: an alias of the live global object makes an operator built
+    # with parameters=None follow every later change of the globals until it is first assembled
+    r2 = ctx.rule("FX-PARAM-SNAPSHOT", "assign_parameters(None) returns a copy of the global parameters taken at construction, not the live global object", 1)
+    hp = "bempp_cl/api/utils/helpers.py"
+    fn = ctx.repo.mod(hp).fn("assign_parameters")
+    defs = roles.Defs(fn)
+    p0 = arg_names(fn)[0]
+    St = roles.stores(fn.body, defs, lv=False)
+    none_test = {"(%s Is None)" % p0, "(%sIsNone)" % p0}
+    vals = []
+    for s in St:
+        if s.guards and s.guards[-1][0].replace(" ", "") in {t.replace(" ", "") for t in none_test} and s.guards[-1][1] is True and s.op in ("=", "return"):
+            vals.append(s)
+    if not vals:
+        raise AnalysisError("assign_parameters: the parameters-is-None branch was not found")
+    alias = [s for s in vals if s.value.replace(" ", "").endswith("GLOBAL_PARAMETERS")]
+    r2.check(not alias, "assign_parameters(None)", hp, "assign_parameters", alias[0].node.lineno if alias else fn.lineno, "assign_parameters returns the live global object",
+             "for parameters=None the function hands out `%s` itself: the operator keeps an alias of the mutable global object, so changing GLOBAL_PARAMETERS after construction changes what the operator assembles" % (alias[0].value if alias else ""))
     # embedded positive
     src = ast.parse("def f(p):\n    return bempp_cl.api.GLOBAL_PARAMETERS.quadrature.regular")
     r.must_fire(any(isinstance(n, ast.Attribute) and n.attr == "GLOBAL_PARAMETERS" for n in ast.walk(src)), "GLOBAL_PARAMETERS read in a plain function")
